@@ -288,11 +288,17 @@ def check(run):
         from ..names import return_names
         rn = return_names(f)
         PR = rn[-1] if rn and rn[-1] else 'prob'
-        halves = [s for s in k.block if isinstance(s, ast.Assign) and norm(s.targets[0]) == PR]
+        from ..names import update_of
+        halves = [s for s in k.block if (isinstance(s, ast.Assign) and norm(s.targets[0]) == PR) or (isinstance(s, ast.AugAssign) and norm(s.target) == PR)]
         ok = len(halves) == 1
         if ok:
             try:
-                ok = all(abs(ev(halves[0].value, {PR: v}) - v / 2) < 1e-12 for v in (1.0, 0.5))
+                h = halves[0]
+                if isinstance(h, ast.AugAssign):
+                    expr = ast.BinOp(left=ast.Name(id=PR, ctx=ast.Load()), op=h.op, right=h.value)
+                else:
+                    expr = h.value
+                ok = all(abs(ev(expr, {PR: v}) - v / 2) < 1e-12 for v in (1.0, 0.5))
             except Undecidable:
                 ok = False
         run.check(ok, 'R11.prob', f, halves[0] if halves else PR, 'an undetermined outcome has probability 1/2')
